@@ -39,16 +39,16 @@ type replCase struct {
 }
 
 type replWitness struct {
-	Case      replCase `json:"case"`
-	Poll      string   `json:"poll"`
-	Index     uint64   `json:"leader_index"`
-	Proposed  string   `json:"proposed_command"`
-	Received  string   `json:"received_command"`
-	Diffs     []fdiff  `json:"differences"`
-	Before    []string `json:"commands_before_it_in_the_log"`
-	Affected  int      `json:"commands_differing_in_this_case"`
-	Judged    int      `json:"commands_judged_in_this_case"`
-	Detail    string   `json:"detail,omitempty"`
+	Case     replCase `json:"case"`
+	Poll     string   `json:"poll"`
+	Index    uint64   `json:"leader_index"`
+	Proposed string   `json:"proposed_command"`
+	Received string   `json:"received_command"`
+	Diffs    []fdiff  `json:"differences"`
+	Before   []string `json:"commands_before_it_in_the_log"`
+	Affected int      `json:"commands_differing_in_this_case"`
+	Judged   int      `json:"commands_judged_in_this_case"`
+	Detail   string   `json:"detail,omitempty"`
 }
 
 var replKeys = []string{"a", "a1", "b", "b\x00", "c", "c/1", "d", "k\xff", "m", "z"}
